@@ -248,6 +248,15 @@ var kC17Y = run.NewKind("c17.yaml", func(c *run.Ctx, t c17YCase) *run.Fail {
 	case "stdinfile":
 		os.WriteFile(path, whole, 0o644)
 		opt = run.CLIOpt{Args: args, StdinFile: path}
+	case "stdinfile-skip":
+		// the descriptor is a regular file whose first lines another process has already consumed: what the command
+		// reads, and therefore numbers and quotes, starts at the current position
+		prefix := []byte("# this header is consumed by somebody else" + term + "consumed: [1, 2," + term + "  3]" + term + "---" + term)
+		for n := []int{0, 0, 40, 900, 9000}[(len(all)+col)%5]; n > 0; n-- {
+			prefix = append(prefix, ("- 17" + term)...)
+		}
+		os.WriteFile(path, append(append([]byte{}, prefix...), whole...), 0o644)
+		opt = run.CLIOpt{Args: args, StdinFile: path, StdinSkip: int64(len(prefix))}
 	default:
 		opt = run.CLIOpt{Args: args, Stdin: whole}
 	}
@@ -342,7 +351,7 @@ func c17ContBytes(b []byte) (n int) {
 func c17BodyYAML(c *run.Ctx) {
 	r := c.Rand("c17.yaml")
 	nd := c.N(90, 500)
-	vias := []string{"file", "stdinfile", "pipe"}
+	vias := []string{"file", "stdinfile", "pipe", "stdinfile-skip"}
 	for k := 0; k < nd; k++ {
 		doc := c17YSpec{Seed: r.Uint64() >> 11, Wide: r.IntN(3) > 0}
 		switch k % 4 {
@@ -355,7 +364,7 @@ func c17BodyYAML(c *run.Ctx) {
 		case 3:
 			doc.Lines = 200 + r.IntN(200)
 		}
-		base := c17YCase{Doc: doc, Term: c17Terms[r.IntN(3)], Via: vias[k%3], Tail: r.IntN(3) == 0}
+		base := c17YCase{Doc: doc, Term: c17Terms[r.IntN(3)], Via: vias[(k+k/4)%4], Tail: r.IntN(3) == 0}
 		for n := r.IntN(4); n > 0; n-- {
 			pre := c17YSpec{Seed: r.Uint64() >> 11, Wide: r.IntN(2) == 0, Lines: 1 + r.IntN(30)}
 			if r.IntN(4) == 0 {
